@@ -37,7 +37,7 @@ pub const DEF: CheckDef = CheckDef {
     id: "C18",
     run,
     technique: "bounded-exhaustive enumeration of consistent camt.053 statements rendered as XML by the generator; the real importer (library entry point and ImportCmd on real files) is compared with a reference import written from the statement, and funding + printed output is fed back through the real report::process (acceptance and exact final balance)",
-    rule: "case = one statement + configuration = (opening balance {0, 100.00, -50.25}, row_order {old_to_new, new_to_old}, operator {present, absent}, sequence of entries). Entry alphabet E (1260) = side{CRDT,DBIT} x amount{0.05, 10.10, 1000} x dates{value=booking, booking=value+1, booking=value-1, value date absent, value date absent and booking date as DtTm with offset} x 42 detail/charge shapes (0/1/2/3 TxDtls whose signed amounts sum to the entry, incl. batches of 2 and 3 where one detail (first or last) has the OPPOSITE CdtDbtInd, with and without AmtDtls and with an included charge on the opposite detail; NtryDtls absent / Btch only; AmtDtls present/absent; charge: none, zero record, included at entry level, at detail level, at both, on the second detail only, not included; two and three non-zero charge records landing on one imported transaction without TxAmt: 2/3 records in one entry-level Chrgs, 2 in one detail-level Chrgs, entry-level + detail-level on a single detail and on the first detail of a batch, 2 entry-level records on a batch, 2 records with TxAmt, 2 not-included records; batches whose details differ in carrying AmtDtls: 2 details (TxAmt != Amt + charge, then charge without AmtDtls) in both orders, 3 details with the TxAmt detail first / middle / last; <Chrgs> without any non-zero charge: zero record at entry level (with 0 and 2 details), empty <Chrgs> with a 0.00 total at entry and detail level). Families, each a complete product x 3 openings x 2 row orders: F0 no entry (6); F1 one entry over E (7 560); F1n the same without operator (7 560: 3 060 MUST statements whose shapes carry no non-zero charge, the rest DON'T-CARE); F2n two entries without operator over 24 = side x amount x {k0, k1-zero-chg, k0-entry-empty-chrgs, k2-entry-zero-chg} (3 456); quick: F2 two entries over E2 = 108 (side x amount x {value=booking, booking=value+1} x 9 shapes incl. a mixed-indicator batch of 3 and an entry with two included charge records and no TxAmt) (69 984), F2d two entries over 20 = side x 10.10 x 5 dates x {k0,k2} (2 400), F3 three entries over 12 = side x amount x {k0, k2-det-incl} (10 368); thorough: F2 two entries over Ep = 1140 (E without the four zero/empty-Chrgs shapes) (7 797 600), F3 three entries over 72 = side x amount x 2 dates x 6 shapes (2 239 488), F4 four entries over 12 (124 416). states = statements executed, transitions = ledger transactions compared with the reference (both observations), validated = MUST statements",
+    rule: "case = one statement + configuration = (currency unit, opening balance (3 per unit; CHF: 0, 100.00, -50.25), notation of the figures, configuration, sequence of entries). Entry alphabet E (1260) = side{CRDT,DBIT} x amount{0.05,10.10,1000} x 5 relative value/booking-date forms x 42 detail/charge shapes (see notes/C18/NOTES.md). Families, each a complete product x 3 openings: F0 no entry, F1 one entry over E, F1n same without operator, F2n pairs without operator over 24, quick F2 pairs over 108 / F2d date pairs over 20 / F3 triples over 12, thorough F2 pairs over 1140 / F3 triples over 72 / F4 quadruples over 12 (all x 2 row orders); configuration families over 18 letters: Fw imported-account width 34..48 x {ASCII, wide} x precision {2, none}, Fc same for the rewrite-assigned counter account, Fl 10 nested-fragment layouts x 2 row orders; value classes: Fd one entry x 20 absolute (value, booking) date pairs (month/year/leap-day/decade/millennium boundaries, > 1 year apart, both orders) x 2 row orders; Fp-<ccy> one entry over 32 letters in units of 0/1/2/3/4/8 decimals (JPY, XDC, CHF, KWD, CLF, BTC; amounts 5 units, all-decimals figure, >= 1 000 000, 1.1) x notation {full, minimal, zero-padded} x precision {unit, none}; Fq-<ccy> pairs over 8 letters. states = statements executed, transitions = ledger transactions compared with the reference (both observations), validated = MUST statements",
     assumptions: &[
         "the generator's XML skeleton follows okane's own sample file (cli/tests/testdata/import/iso_camt.xml); elements okane does not model (GrpHdr, Acct, TxsSummry, RvslInd, Sts, Btch totals, RltdPties) are constant",
         "included charge: the entry/detail amount is the account movement; AmtDtls/TxAmt (when rendered) is the amount net of the included charges (debit: Amt - charges, credit: Amt + charges) as in the sample file; an entry-level charge on a two-detail batch is attributed to the first detail's TxAmt",
@@ -53,11 +53,97 @@ pub const DEF: CheckDef = CheckDef {
 const ACCOUNT: &str = "Assets:Bank";
 const CCY: &str = "CHF";
 
-/// opening balances in cents
-const OPENINGS: [i64; 3] = [0, 100_00, -50_25];
-/// entry amounts in cents, and the first part when split into two details
-const AMOUNTS: [i64; 3] = [5, 10_10, 1000_00];
-const FIRST_PART: [i64; 3] = [3, 10_00, 999_95];
+/// A currency with its number of decimals. All figures of a statement are integers in units of 10^-scale.
+#[derive(Debug)]
+struct Unit {
+    ccy: &'static str,
+    scale: u32,
+    /// opening balances
+    openings: [i64; 3],
+    /// entry amounts, and the first part when an entry is split into two details
+    amounts: &'static [i64],
+    first: &'static [i64],
+}
+
+/// the unit of all families but Fp: 0 / 100.00 / -50.25; 0.05, 10.10, 1000
+static CHF: Unit = Unit { ccy: "CHF", scale: 2, openings: [0, 100_00, -50_25], amounts: &[5, 10_10, 1000_00], first: &[3, 10_00, 999_95] };
+
+/// Units of the precision family Fp: 0, 1, 2, 3, 4 and 8 decimals. Amounts: 5 units (< 0.01 from 3 decimals on),
+/// a figure using every decimal, one >= 1 000 000 (plus one unit), and 1.1 (trailing zeros when written in full).
+static UNITS_P: [Unit; 6] = [
+    Unit { ccy: "JPY", scale: 0, openings: [0, 100, -50], amounts: &[5, 1000, 1_000_001, 12_345_678], first: &[3, 998, 1_000_000, 12_345_670] },
+    Unit { ccy: "XDC", scale: 1, openings: [0, 100_0, -50_2], amounts: &[5, 10_1, 1_000_000_5, 1_1], first: &[3, 10_0, 1_000_000_0, 9] },
+    Unit { ccy: "CHF", scale: 2, openings: [0, 100_00, -50_25], amounts: &[5, 10_10, 1_000_000_01, 1_10], first: &[3, 10_00, 1_000_000_00, 1_00] },
+    Unit { ccy: "KWD", scale: 3, openings: [0, 100_000, -50_255], amounts: &[5, 1_004, 1_000_000_001, 1_100], first: &[3, 1_000, 1_000_000_000, 1_000] },
+    Unit { ccy: "CLF", scale: 4, openings: [0, 100_0000, -50_2555], amounts: &[5, 12_3456, 1_000_000_0001, 1_1000], first: &[3, 12_0000, 1_000_000_0000, 1_0000] },
+    Unit { ccy: "BTC", scale: 8, openings: [0, 100_00000000, -50_25555555], amounts: &[5, 1_23456789, 1_000_000_00000001, 1_10000000], first: &[3, 1_00000000, 1_000_000_00000000, 1_00000000] },
+];
+
+/// How the statement writes its figures.
+#[derive(Clone, Copy, PartialEq, Eq, Debug)]
+enum Style {
+    /// integer when whole, otherwise all decimals of the unit (`1000`, `10.10`): all families but Fp
+    Hybrid,
+    /// always all decimals of the unit (`1.100`, `1000000.001`; `1000` for JPY)
+    Full,
+    /// trailing zeros dropped (`1.1`, `1000`)
+    Minimal,
+    /// two more zeros than the unit has decimals (`1.10000`)
+    Padded,
+}
+
+impl Unit {
+    fn fmt(&self, c: i64, style: Style) -> String {
+        let p = 10i64.pow(self.scale);
+        let a = c.abs();
+        let int = a / p;
+        let mut frac = if self.scale == 0 { String::new() } else { format!("{:0width$}", a % p, width = self.scale as usize) };
+        match style {
+            Style::Hybrid => {
+                if a % p == 0 {
+                    frac.clear();
+                }
+            }
+            Style::Full => {}
+            Style::Minimal => frac = frac.trim_end_matches('0').to_string(),
+            Style::Padded => frac.push_str("00"),
+        }
+        let s = if frac.is_empty() { format!("{}", int) } else { format!("{}.{}", int, frac) };
+        if c < 0 {
+            format!("-{}", s)
+        } else {
+            s
+        }
+    }
+    fn q(&self, c: i64) -> Q {
+        Q::new(c as i128, 10i128.pow(self.scale))
+    }
+}
+
+/// (value date, booking date) pairs outside the small relative scheme: month / year / leap-day / decade / millennium
+/// boundaries, many days and more than a year apart, the far past; each in both orders, plus equal special days.
+const DATE_PAIRS: [((i32, u32, u32), (i32, u32, u32)); 20] = [
+    ((2021, 10, 31), (2021, 11, 1)),
+    ((2021, 11, 1), (2021, 10, 31)),
+    ((2021, 12, 31), (2022, 1, 3)),
+    ((2022, 1, 3), (2021, 12, 31)),
+    ((2024, 2, 29), (2024, 3, 1)),
+    ((2024, 3, 1), (2024, 2, 29)),
+    ((2024, 2, 28), (2024, 2, 29)),
+    ((2024, 2, 29), (2024, 2, 28)),
+    ((2021, 1, 5), (2021, 12, 20)),
+    ((2021, 12, 20), (2021, 1, 5)),
+    ((2020, 12, 31), (2022, 1, 1)),
+    ((2022, 1, 1), (2020, 12, 31)),
+    ((1999, 12, 31), (2000, 1, 1)),
+    ((2000, 1, 1), (1999, 12, 31)),
+    ((2000, 2, 29), (2000, 3, 1)),
+    ((2000, 3, 1), (2000, 2, 29)),
+    ((2029, 12, 31), (2030, 1, 1)),
+    ((2030, 1, 1), (2029, 12, 31)),
+    ((2024, 2, 29), (2024, 2, 29)),
+    ((1999, 12, 31), (1999, 12, 31)),
+];
 const ENTRY_CHARGE: i64 = 2;
 const DETAIL_CHARGE: i64 = 1;
 
@@ -75,6 +161,8 @@ enum Dates {
     ValueAbsent,
     /// no value date, booking date given as <DtTm> with an offset whose UTC calendar day differs (Wise style)
     BookDtTmOnly,
+    /// an explicit (value, booking) pair of DATE_PAIRS
+    Pair(usize),
 }
 
 #[derive(Clone, Copy, PartialEq, Eq, Debug)]
@@ -255,9 +343,13 @@ struct EntrySpec {
     amt: usize,
     dates: Dates,
     shape: usize,
+    unit: &'static Unit,
 }
 
 impl EntrySpec {
+    fn amount(&self) -> i64 {
+        self.unit.amounts[self.amt]
+    }
     fn shape(&self) -> &'static Shape {
         &SHAPES[self.shape]
     }
@@ -270,8 +362,8 @@ impl EntrySpec {
     /// (amount, own side) of the details (k = 0: none); signed by their own side they sum to the signed entry
     fn details(&self) -> Vec<(i64, Side)> {
         let s = self.shape();
-        let a = AMOUNTS[self.amt];
-        let f = FIRST_PART[self.amt];
+        let a = self.amount();
+        let f = self.unit.first[self.amt];
         let x = a - f;
         let own = self.side;
         let other = if own == Side::Credit { Side::Debit } else { Side::Credit };
@@ -287,12 +379,13 @@ impl EntrySpec {
         }
     }
     fn name(&self) -> String {
-        format!("{}{}/{}/{}", if self.side == Side::Credit { "+" } else { "-" }, cents(AMOUNTS[self.amt]), self.shape().name, match self.dates {
-            Dates::Same => "val=book",
-            Dates::BookLater => "book=val+1",
-            Dates::BookEarlier => "book=val-1",
-            Dates::ValueAbsent => "no-val",
-            Dates::BookDtTmOnly => "no-val,book=DtTm",
+        format!("{}{}/{}/{}", if self.side == Side::Credit { "+" } else { "-" }, self.unit.fmt(self.amount(), Style::Full), self.shape().name, match self.dates {
+            Dates::Same => "val=book".to_string(),
+            Dates::BookLater => "book=val+1".to_string(),
+            Dates::BookEarlier => "book=val-1".to_string(),
+            Dates::ValueAbsent => "no-val".to_string(),
+            Dates::BookDtTmOnly => "no-val,book=DtTm".to_string(),
+            Dates::Pair(k) => format!("val={:?},book={:?}", DATE_PAIRS[k].0, DATE_PAIRS[k].1),
         })
     }
 }
@@ -301,6 +394,9 @@ impl EntrySpec {
 #[derive(Clone, Debug)]
 struct Stmt {
     opening: i64,
+    unit: &'static Unit,
+    /// how the figures are written in the XML
+    style: Style,
     /// the import configuration the statement is imported with
     cfg: CfgSpec,
     entries: Vec<EntrySpec>,
@@ -308,7 +404,17 @@ struct Stmt {
 
 impl Stmt {
     fn closing(&self) -> i64 {
-        self.opening + self.entries.iter().map(|e| e.signed(AMOUNTS[e.amt])).sum::<i64>()
+        self.opening + self.entries.iter().map(|e| e.signed(e.amount())).sum::<i64>()
+    }
+    /// a figure as the statement writes it
+    fn m(&self, c: i64) -> String {
+        self.unit.fmt(c, self.style)
+    }
+    fn q(&self, c: i64) -> Q {
+        self.unit.q(c)
+    }
+    fn ccy(&self) -> &'static str {
+        self.unit.ccy
     }
     /// (value date, booking date) of the i-th entry in chronological order
     fn dates(&self, i: usize) -> (Option<NaiveDate>, NaiveDate) {
@@ -318,31 +424,23 @@ impl Stmt {
             Dates::BookLater => (Some(v), v + Duration::days(1)),
             Dates::BookEarlier => (Some(v), v - Duration::days(1)),
             Dates::ValueAbsent | Dates::BookDtTmOnly => (None, v),
+            Dates::Pair(k) => {
+                let ((vy, vm, vd), (by, bm, bd)) = DATE_PAIRS[k];
+                (Some(oka::date(vy, vm, vd)), oka::date(by, bm, bd))
+            }
         }
     }
     fn summary(&self) -> String {
         format!(
-            "opening {} closing {} {} entries(chronological) [{}]",
-            cents(self.opening),
-            cents(self.closing()),
+            "{} opening {} closing {} figures written {:?}; {} entries(chronological) [{}]",
+            self.ccy(),
+            self.m(self.opening),
+            self.m(self.closing()),
+            self.style,
             self.cfg.summary(),
             self.entries.iter().map(|e| e.name()).collect::<Vec<_>>().join(", ")
         )
     }
-}
-
-fn cents(c: i64) -> String {
-    let a = c.abs();
-    let s = if a % 100 == 0 { format!("{}", a / 100) } else { format!("{}.{:02}", a / 100, a % 100) };
-    if c < 0 {
-        format!("-{}", s)
-    } else {
-        s
-    }
-}
-
-fn qc(c: i64) -> Q {
-    Q::new(c as i128, 100)
 }
 
 fn ind(c: i64) -> &'static str {
@@ -356,7 +454,7 @@ fn ind(c: i64) -> &'static str {
 // ------------------------------------------------------------------------------------------
 // XML rendering (skeleton of cli/tests/testdata/import/iso_camt.xml)
 
-fn render_charges(out: &mut String, indent: &str, chg: Chg, level_amount: i64) {
+fn render_charges(out: &mut String, stmt: &Stmt, indent: &str, chg: Chg, level_amount: i64) {
     let recs = chg.records(level_amount);
     if chg == Chg::None {
         return;
@@ -364,12 +462,12 @@ fn render_charges(out: &mut String, indent: &str, chg: Chg, level_amount: i64) {
     out.push_str(&format!("{i}<Chrgs>\n", i = indent));
     let total: i64 = recs.iter().map(|r| r.0).sum();
     if chg == Chg::Empty {
-        out.push_str(&format!("{i}  <TtlChrgsAndTaxAmt Ccy=\"{c}\">0.00</TtlChrgsAndTaxAmt>\n", i = indent, c = CCY));
+        out.push_str(&format!("{i}  <TtlChrgsAndTaxAmt Ccy=\"{c}\">0.00</TtlChrgsAndTaxAmt>\n", i = indent, c = stmt.ccy()));
     } else if total != 0 {
-        out.push_str(&format!("{i}  <TtlChrgsAndTaxAmt Ccy=\"{c}\">{a}</TtlChrgsAndTaxAmt>\n", i = indent, c = CCY, a = cents(total)));
+        out.push_str(&format!("{i}  <TtlChrgsAndTaxAmt Ccy=\"{c}\">{a}</TtlChrgsAndTaxAmt>\n", i = indent, c = stmt.ccy(), a = stmt.m(total)));
     }
     for (amt, incl) in recs {
-        out.push_str(&format!("{i}  <Rcrd>\n{i}    <Amt Ccy=\"{c}\">{a}</Amt>\n", i = indent, c = CCY, a = cents(amt)));
+        out.push_str(&format!("{i}  <Rcrd>\n{i}    <Amt Ccy=\"{c}\">{a}</Amt>\n", i = indent, c = stmt.ccy(), a = stmt.m(amt)));
         out.push_str(&format!("{i}    <CdtDbtInd>{d}</CdtDbtInd>\n", i = indent, d = if amt == 0 { "CRDT" } else { "DBIT" }));
         if let Some(b) = incl {
             out.push_str(&format!("{i}    <ChrgInclInd>{b}</ChrgInclInd>\n", i = indent, b = b));
@@ -383,10 +481,10 @@ fn render_entry(out: &mut String, stmt: &Stmt, i: usize) {
     let e = &stmt.entries[i];
     let s = e.shape();
     let (val, book) = stmt.dates(i);
-    let a = AMOUNTS[e.amt];
+    let a = e.amount();
     let cd = ind(e.signed(1));
     out.push_str("      <Ntry>\n");
-    out.push_str(&format!("        <Amt Ccy=\"{}\">{}</Amt>\n        <CdtDbtInd>{}</CdtDbtInd>\n", CCY, cents(a), cd));
+    out.push_str(&format!("        <Amt Ccy=\"{}\">{}</Amt>\n        <CdtDbtInd>{}</CdtDbtInd>\n", stmt.ccy(), stmt.m(a), cd));
     out.push_str("        <RvslInd>false</RvslInd>\n        <Sts>BOOK</Sts>\n");
     if e.dates == Dates::BookDtTmOnly {
         // 00:30 local time at +02:00 is still the previous day in UTC: the booking DATE is the local one
@@ -399,15 +497,15 @@ fn render_entry(out: &mut String, stmt: &Stmt, i: usize) {
     }
     let fam = if e.side == Side::Credit { "RCDT" } else { "ICDT" };
     out.push_str(&format!("        <BkTxCd>\n          <Domn>\n            <Cd>PMNT</Cd>\n            <Fmly>\n              <Cd>{}</Cd>\n              <SubFmlyCd>OTHR</SubFmlyCd>\n            </Fmly>\n          </Domn>\n        </BkTxCd>\n", fam));
-    render_charges(out, "        ", s.entry_chg, ENTRY_CHARGE);
+    render_charges(out, stmt, "        ", s.entry_chg, ENTRY_CHARGE);
     if s.btch || s.k > 0 {
         out.push_str("        <NtryDtls>\n");
-        out.push_str(&format!("          <Btch>\n            <NbOfTxs>{}</NbOfTxs>\n            <TtlAmt Ccy=\"{}\">{}</TtlAmt>\n            <CdtDbtInd>{}</CdtDbtInd>\n          </Btch>\n", s.k.max(1), CCY, cents(a), cd));
+        out.push_str(&format!("          <Btch>\n            <NbOfTxs>{}</NbOfTxs>\n            <TtlAmt Ccy=\"{}\">{}</TtlAmt>\n            <CdtDbtInd>{}</CdtDbtInd>\n          </Btch>\n", s.k.max(1), stmt.ccy(), stmt.m(a), cd));
         for (j, (da, dside)) in e.details().iter().enumerate() {
             let dcd = if *dside == Side::Credit { "CRDT" } else { "DBIT" };
             out.push_str("          <TxDtls>\n");
             out.push_str(&format!("            <Refs>\n              <AcctSvcrRef>REF/{}/{}</AcctSvcrRef>\n              <EndToEndId>NOTPROVIDED</EndToEndId>\n            </Refs>\n", i + 1, j + 1));
-            out.push_str(&format!("            <Amt Ccy=\"{}\">{}</Amt>\n            <CdtDbtInd>{}</CdtDbtInd>\n", CCY, cents(*da), dcd));
+            out.push_str(&format!("            <Amt Ccy=\"{}\">{}</Amt>\n            <CdtDbtInd>{}</CdtDbtInd>\n", stmt.ccy(), stmt.m(*da), dcd));
             if s.amt[j] {
                 // charges carried by this detail
                 let mut incl = s.chg(j).included(DETAIL_CHARGE);
@@ -420,9 +518,9 @@ fn render_entry(out: &mut String, stmt: &Stmt, i: usize) {
                 // credit: the account received amount = net - charge
                 let tx_amt = if *dside == Side::Debit { da - incl } else { da + incl };
                 let instd = if *dside == Side::Debit { tx_amt - not_incl } else { tx_amt + not_incl };
-                out.push_str(&format!("            <AmtDtls>\n              <InstdAmt>\n                <Amt Ccy=\"{c}\">{i}</Amt>\n              </InstdAmt>\n              <TxAmt>\n                <Amt Ccy=\"{c}\">{t}</Amt>\n              </TxAmt>\n            </AmtDtls>\n", c = CCY, i = cents(instd), t = cents(tx_amt)));
+                out.push_str(&format!("            <AmtDtls>\n              <InstdAmt>\n                <Amt Ccy=\"{c}\">{i}</Amt>\n              </InstdAmt>\n              <TxAmt>\n                <Amt Ccy=\"{c}\">{t}</Amt>\n              </TxAmt>\n            </AmtDtls>\n", c = stmt.ccy(), i = stmt.m(instd), t = stmt.m(tx_amt)));
             }
-            render_charges(out, "            ", s.chg(j), DETAIL_CHARGE);
+            render_charges(out, stmt, "            ", s.chg(j), DETAIL_CHARGE);
             let (me, other) = if *dside == Side::Credit { ("Cdtr", "Dbtr") } else { ("Dbtr", "Cdtr") };
             out.push_str(&format!("            <RltdPties>\n              <{o}>\n                <Nm>Party {i}.{j}</Nm>\n              </{o}>\n              <{m}>\n                <Nm>Taro Yamada</Nm>\n              </{m}>\n            </RltdPties>\n", o = other, m = me, i = i + 1, j = j + 1));
             out.push_str(&format!("            <AddtlTxInf>detail {}.{}</AddtlTxInf>\n          </TxDtls>\n", i + 1, j + 1));
@@ -432,8 +530,8 @@ fn render_entry(out: &mut String, stmt: &Stmt, i: usize) {
     out.push_str(&format!("        <AddtlNtryInf>entry {}</AddtlNtryInf>\n      </Ntry>\n", i + 1));
 }
 
-fn render_balance(out: &mut String, code: &str, v: i64, date: &str) {
-    out.push_str(&format!("      <Bal>\n        <Tp>\n          <CdOrPrtry>\n            <Cd>{}</Cd>\n          </CdOrPrtry>\n        </Tp>\n        <Amt Ccy=\"{}\">{}</Amt>\n        <CdtDbtInd>{}</CdtDbtInd>\n        <Dt>\n          <Dt>{}</Dt>\n        </Dt>\n      </Bal>\n", code, CCY, cents(v.abs()), ind(v), date));
+fn render_balance(out: &mut String, stmt: &Stmt, code: &str, v: i64, date: &str) {
+    out.push_str(&format!("      <Bal>\n        <Tp>\n          <CdOrPrtry>\n            <Cd>{}</Cd>\n          </CdOrPrtry>\n        </Tp>\n        <Amt Ccy=\"{}\">{}</Amt>\n        <CdtDbtInd>{}</CdtDbtInd>\n        <Dt>\n          <Dt>{}</Dt>\n        </Dt>\n      </Bal>\n", code, stmt.ccy(), stmt.m(v.abs()), ind(v), date));
 }
 
 fn render_xml(stmt: &Stmt) -> String {
@@ -441,16 +539,16 @@ fn render_xml(stmt: &Stmt) -> String {
     o.push_str("<?xml version=\"1.0\" encoding=\"UTF-8\"?>\n<Document xmlns=\"urn:iso:std:iso:20022:tech:xsd:camt.053.001.04\">\n  <BkToCstmrStmt>\n");
     o.push_str("    <GrpHdr>\n      <MsgId>2021103100000000</MsgId>\n      <CreDtTm>2021-10-31T00:00:00</CreDtTm>\n      <MsgPgntn>\n        <PgNb>1</PgNb>\n        <LastPgInd>true</LastPgInd>\n      </MsgPgntn>\n    </GrpHdr>\n");
     o.push_str("    <Stmt>\n      <Id>2021103100000000</Id>\n      <ElctrncSeqNb>2</ElctrncSeqNb>\n      <CreDtTm>2021-10-31T00:00:00</CreDtTm>\n      <FrToDt>\n        <FrDtTm>2021-10-01T00:00:00</FrDtTm>\n        <ToDtTm>2021-10-30T23:59:59</ToDtTm>\n      </FrToDt>\n");
-    o.push_str(&format!("      <Acct>\n        <Id>\n          <IBAN>CH3689144511369184655</IBAN>\n        </Id>\n        <Ccy>{}</Ccy>\n        <Ownr>\n          <Nm>Taro Yamada</Nm>\n        </Ownr>\n      </Acct>\n", CCY));
-    render_balance(&mut o, "OPBD", stmt.opening, "2021-10-01");
-    render_balance(&mut o, "CLBD", stmt.closing(), "2021-10-31");
-    let credits: i64 = stmt.entries.iter().filter(|e| e.side == Side::Credit).map(|e| AMOUNTS[e.amt]).sum();
-    let debits: i64 = stmt.entries.iter().filter(|e| e.side == Side::Debit).map(|e| AMOUNTS[e.amt]).sum();
+    o.push_str(&format!("      <Acct>\n        <Id>\n          <IBAN>CH3689144511369184655</IBAN>\n        </Id>\n        <Ccy>{}</Ccy>\n        <Ownr>\n          <Nm>Taro Yamada</Nm>\n        </Ownr>\n      </Acct>\n", stmt.ccy()));
+    render_balance(&mut o, stmt, "OPBD", stmt.opening, "2021-10-01");
+    render_balance(&mut o, stmt, "CLBD", stmt.closing(), "2021-10-31");
+    let credits: i64 = stmt.entries.iter().filter(|e| e.side == Side::Credit).map(|e| e.amount()).sum();
+    let debits: i64 = stmt.entries.iter().filter(|e| e.side == Side::Debit).map(|e| e.amount()).sum();
     o.push_str(&format!(
         "      <TxsSummry>\n        <TtlNtries>\n          <NbOfNtries>{}</NbOfNtries>\n          <Sum>{}</Sum>\n          <TtlNetNtry>\n            <Amt>{}</Amt>\n            <CdtDbtInd>{}</CdtDbtInd>\n          </TtlNetNtry>\n        </TtlNtries>\n      </TxsSummry>\n",
         stmt.entries.len(),
-        cents(credits + debits),
-        cents((credits - debits).abs()),
+        stmt.m(credits + debits),
+        stmt.m((credits - debits).abs()),
         ind(credits - debits)
     ));
     let n = stmt.entries.len();
@@ -492,8 +590,10 @@ struct CfgSpec {
     account: String,
     /// counter account assigned to every entry by the rewrite rule (None: okane's Income/Expenses:Unknown)
     counter: Option<String>,
-    /// format.commodity.CHF.precision: 2 (false: no precision configured, numbers print as in the statement)
-    precision2: bool,
+    /// currency of the statement (configured as `commodity`)
+    ccy: &'static str,
+    /// format.commodity.<ccy>.precision (None: no precision configured, numbers print as in the statement)
+    precision: Option<u32>,
     layout: Layout,
 }
 
@@ -502,10 +602,10 @@ const MIDDLE_DECOY: &str = "Assets:Middle Decoy";
 
 impl CfgSpec {
     fn plain(new_to_old: bool, operator: bool) -> CfgSpec {
-        CfgSpec { new_to_old, operator, account: ACCOUNT.to_string(), counter: None, precision2: true, layout: Layout::Single }
+        CfgSpec { new_to_old, operator, account: ACCOUNT.to_string(), counter: None, ccy: CCY, precision: Some(2), layout: Layout::Single }
     }
     fn is_plain(&self) -> bool {
-        self.account == ACCOUNT && self.counter.is_none() && self.precision2 && self.layout == Layout::Single
+        self.account == ACCOUNT && self.counter.is_none() && self.ccy == CCY && self.precision == Some(2) && self.layout == Layout::Single
     }
     /// path of the statement file below the per-configuration scratch directory
     fn source(&self) -> &'static str {
@@ -521,19 +621,19 @@ impl CfgSpec {
             if self.operator { "present" } else { "absent" },
             self.account,
             self.counter,
-            if self.precision2 { "2" } else { "none" },
+            self.precision.map(|p| p.to_string()).unwrap_or("none".into()),
             self.layout
         )
     }
     fn yaml(&self) -> String {
         let q = |v: &str| format!("\"{}\"", v);
         let base = format!("encoding: UTF-8\naccount_type: asset\n{}", if self.operator { "operator: Okane Bank (fee)\n" } else { "" });
-        let format = format!("format:\n{}  row_order: {}\n", if self.precision2 { format!("  commodity:\n    {}:\n      precision: 2\n", CCY) } else { String::new() }, if self.new_to_old { "new_to_old" } else { "old_to_new" });
+        let format = format!("format:\n{}  row_order: {}\n", self.precision.map(|p| format!("  commodity:\n    {}:\n      precision: {}\n", self.ccy, p)).unwrap_or_default(), if self.new_to_old { "new_to_old" } else { "old_to_new" });
         let rewrite = format!("rewrite:\n  - matcher:\n      additional_entry_info: \"(?P<payee>.+)\"\n{}", self.counter.as_ref().map(|c| format!("    account: {}\n", q(c))).unwrap_or_default());
         let acct = |v: &str| format!("account: {}\n", q(v));
         let comm = |v: &str| format!("commodity: {}\n", v);
         match self.layout {
-            Layout::Single => format!("path: stmt.xml\n{}{}{}{}{}", base, acct(&self.account), comm(CCY), format, rewrite),
+            Layout::Single => format!("path: stmt.xml\n{}{}{}{}{}", base, acct(&self.account), comm(self.ccy), format, rewrite),
             Layout::Nested { account, commodity } => {
                 let mut outer = format!("path: bank/\n{}", base);
                 let mut inner = "path: bank/savings/\n".to_string();
@@ -546,11 +646,11 @@ impl CfgSpec {
                     }
                 }
                 match commodity {
-                    Where::Outer => outer.push_str(&comm(CCY)),
-                    Where::Inner => inner.push_str(&comm(CCY)),
+                    Where::Outer => outer.push_str(&comm(self.ccy)),
+                    Where::Inner => inner.push_str(&comm(self.ccy)),
                     Where::Both => {
                         outer.push_str(&comm("EUR"));
-                        inner.push_str(&comm(CCY));
+                        inner.push_str(&comm(self.ccy));
                     }
                 }
                 outer.push_str(&format);
@@ -561,7 +661,7 @@ impl CfgSpec {
             Layout::Three => {
                 let outer = format!("path: bank/\n{}{}{}{}", base, acct(OUTER_DECOY), comm("EUR"), rewrite);
                 let middle = format!("path: bank/savings/\n{}", acct(MIDDLE_DECOY));
-                let inner = format!("path: bank/savings/stmt\n{}{}{}", acct(&self.account), comm(CCY), format);
+                let inner = format!("path: bank/savings/stmt\n{}{}{}", acct(&self.account), comm(self.ccy), format);
                 format!("{}---\n{}---\n{}", middle, inner, outer)
             }
         }
@@ -590,7 +690,7 @@ fn expected(stmt: &Stmt) -> Vec<ExpTxn> {
         };
         let ds = e.details();
         if ds.is_empty() {
-            v.push(ExpTxn { date, eff, amt: e.signed(AMOUNTS[e.amt]) });
+            v.push(ExpTxn { date, eff, amt: e.signed(e.amount()) });
         } else {
             // each detail by its OWN credit/debit indicator
             for (d, side) in ds {
@@ -751,8 +851,8 @@ fn judge_shape(who: &str, stmt: &Stmt, exp: &[ExpTxn], obs: &[ObsTxn]) -> Option
     }
     // every transaction has exactly one literal posting on the account in the statement's currency
     for (i, t) in obs.iter().enumerate() {
-        if t.acct.len() != 1 || !t.acct[0].literal || t.acct[0].amount.as_ref().map(|a| a.1.as_str()) != Some(CCY) {
-            return viol("shape/account-posting/not-exactly-one", format!("transaction #{} has {} postings on {:?} (or not a plain {} amount); its postings: {:?}", i, t.acct.len(), stmt.cfg.account, CCY, t.all.iter().map(|p| p.0.as_str()).collect::<Vec<_>>()));
+        if t.acct.len() != 1 || !t.acct[0].literal || t.acct[0].amount.as_ref().map(|a| a.1.as_str()) != Some(stmt.ccy()) {
+            return viol("shape/account-posting/not-exactly-one", format!("transaction #{} has {} postings on {:?} (or not a plain {} amount); its postings: {:?}", i, t.acct.len(), stmt.cfg.account, stmt.ccy(), t.all.iter().map(|p| p.0.as_str()).collect::<Vec<_>>()));
         }
     }
     let amt = |t: &ObsTxn| t.acct[0].amount.as_ref().unwrap().0;
@@ -760,14 +860,14 @@ fn judge_shape(who: &str, stmt: &Stmt, exp: &[ExpTxn], obs: &[ObsTxn]) -> Option
     match &obs[0].acct[0].balance {
         None => return viol("shape/opening-assertion/missing", "the first transaction does not assert the opening balance".into()),
         Some((v, c)) => {
-            if *v != qc(stmt.opening) || c != CCY {
-                return viol("shape/opening-assertion/wrong", format!("the first transaction asserts {} {} instead of the opening balance {}", v, c, cents(stmt.opening)));
+            if *v != stmt.q(stmt.opening) || c != stmt.ccy() {
+                return viol("shape/opening-assertion/wrong", format!("the first transaction asserts {} {} instead of the opening balance {}", v, c, stmt.m(stmt.opening)));
             }
         }
     }
     // account postings: sign and amount, in order
     let got: Vec<Q> = obs[1..].iter().map(amt).collect();
-    let want: Vec<Q> = exp.iter().map(|e| qc(e.amt)).collect();
+    let want: Vec<Q> = exp.iter().map(|e| stmt.q(e.amt)).collect();
     if got != want {
         let neg: Vec<Q> = want.iter().map(|q| q.neg()).collect();
         let mut gs = got.clone();
@@ -805,21 +905,21 @@ fn judge_shape(who: &str, stmt: &Stmt, exp: &[ExpTxn], obs: &[ObsTxn]) -> Option
     let last = obs.last().unwrap();
     match &last.acct[0].balance {
         None => {
-            let elsewhere = obs[1..obs.len() - 1].iter().position(|t| t.acct[0].balance.as_ref().map(|b| b.0) == Some(qc(stmt.closing())));
+            let elsewhere = obs[1..obs.len() - 1].iter().position(|t| t.acct[0].balance.as_ref().map(|b| b.0) == Some(stmt.q(stmt.closing())));
             let kind = if elsewhere.is_some() { "not-on-last" } else { "missing" };
-            return viol(&format!("shape/closing-assertion/{}", kind), format!("the last transaction does not assert the closing balance {}", cents(stmt.closing())));
+            return viol(&format!("shape/closing-assertion/{}", kind), format!("the last transaction does not assert the closing balance {}", stmt.m(stmt.closing())));
         }
         Some((v, c)) => {
-            if *v != qc(stmt.closing()) || c != CCY {
-                return viol("shape/closing-assertion/wrong", format!("the last transaction asserts {} {} instead of the closing balance {}", v, c, cents(stmt.closing())));
+            if *v != stmt.q(stmt.closing()) || c != stmt.ccy() {
+                return viol("shape/closing-assertion/wrong", format!("the last transaction asserts {} {} instead of the closing balance {}", v, c, stmt.m(stmt.closing())));
             }
         }
     }
     None
 }
 
-fn funding(opening: i64, account: &str) -> String {
-    format!("2021/09/01 * funding\n    {}    {} {}\n    Equity:Opening    {} {}\n\n", account, cents(opening), CCY, cents(-opening), CCY)
+fn funding(stmt: &Stmt, account: &str) -> String {
+    format!("1990/01/01 * funding\n    {}    {} {}\n    Equity:Opening    {} {}\n\n", account, stmt.m(stmt.opening), stmt.ccy(), stmt.m(-stmt.opening), stmt.ccy())
 }
 
 fn judge(sc: &Scratch, stmt: &Stmt, xml: &str, txns_compared: &mut u64) -> Outcome {
@@ -835,8 +935,8 @@ fn judge(sc: &Scratch, stmt: &Stmt, xml: &str, txns_compared: &mut u64) -> Outco
         use okane::import::config::RowOrder;
         let bad = if entry.account != account {
             Some(("account", entry.account.clone(), account.to_string()))
-        } else if entry.commodity.primary != CCY {
-            Some(("commodity", entry.commodity.primary.clone(), CCY.to_string()))
+        } else if entry.commodity.primary != stmt.ccy() {
+            Some(("commodity", entry.commodity.primary.clone(), stmt.ccy().to_string()))
         } else if entry.operator.is_some() != stmt.cfg.operator {
             Some(("operator", format!("{:?}", entry.operator), format!("present={}", stmt.cfg.operator)))
         } else if (entry.format.row_order == RowOrder::NewToOld) != stmt.cfg.new_to_old {
@@ -897,14 +997,14 @@ fn judge(sc: &Scratch, stmt: &Stmt, xml: &str, txns_compared: &mut u64) -> Outco
     }
     // --- conservation on the postings themselves
     let sum = parsed.iter().flat_map(|t| t.acct.iter()).filter_map(|p| p.amount.as_ref().map(|a| a.0)).fold(Q::ZERO, |a, b| a.add(b));
-    let delta = qc(stmt.closing() - stmt.opening);
+    let delta = stmt.q(stmt.closing() - stmt.opening);
     if sum != delta {
         return Outcome::violation("sum-of-account-postings-differs", format!("account postings sum to {} but closing - opening = {}", sum, delta));
     }
     // --- feed back through okane's own book-keeping
     // outside the quantifier ("charges included in the amount"): executed and recorded, not judged
     let dc_reason = if stmt.entries.iter().any(|e| e.shape().has_not_included()) { Some("charge-not-included") } else { None };
-    let ledger = format!("{}{}", funding(stmt.opening, account), text);
+    let ledger = format!("{}{}", funding(stmt, account), text);
     // input-shape part of the signatures of the book-keeping clauses
     let ctxt = if stmt.entries.iter().any(|e| e.shape().included_without_txamt()) {
         "included-charge-without-TxAmt"
@@ -924,13 +1024,13 @@ fn judge(sc: &Scratch, stmt: &Stmt, xml: &str, txns_compared: &mut u64) -> Outco
         _ => {}
     }
     let (bal, _) = res.unwrap();
-    let fin = bal.get(account).and_then(|m| m.get(CCY)).copied().unwrap_or(Q::ZERO);
-    let extra = bal.get(account).map(|m| m.keys().any(|k| k != CCY)).unwrap_or(false);
-    if fin != qc(stmt.closing()) || extra {
+    let fin = bal.get(account).and_then(|m| m.get(stmt.ccy())).copied().unwrap_or(Q::ZERO);
+    let extra = bal.get(account).map(|m| m.keys().any(|k| k != stmt.ccy())).unwrap_or(false);
+    if fin != stmt.q(stmt.closing()) || extra {
         if let Some(r) = dc_reason {
             return Outcome::dont_care(format!("dc/{}/{}/final-balance-differs", r, ctxt));
         }
-        return Outcome::violation(format!("final-balance-differs/{}", ctxt), format!("the account ends at {} but the closing balance is {}\n--- ledger ---\n{}", fin, cents(stmt.closing()), ledger));
+        return Outcome::violation(format!("final-balance-differs/{}", ctxt), format!("the account ends at {} but the closing balance is {}\n--- ledger ---\n{}", fin, stmt.m(stmt.closing()), ledger));
     }
     if let Some(r) = dc_reason {
         return Outcome::dont_care(format!("dc/{}/{}/accepted", r, ctxt));
@@ -942,7 +1042,11 @@ fn judge(sc: &Scratch, stmt: &Stmt, xml: &str, txns_compared: &mut u64) -> Outco
     let chg = stmt.entries.iter().any(|e| e.shape().has_included());
     let eff = exp.iter().any(|e| e.eff.is_some());
     let noval = stmt.entries.iter().any(|e| matches!(e.dates, Dates::ValueAbsent | Dates::BookDtTmOnly));
-    let kind = if stmt.cfg.layout != Layout::Single {
+    let kind = if stmt.style != Style::Hybrid {
+        "-precision"
+    } else if stmt.entries.iter().any(|e| matches!(e.dates, Dates::Pair(_))) {
+        "-dates"
+    } else if stmt.cfg.layout != Layout::Single {
         "-layered"
     } else if !stmt.cfg.is_plain() {
         "-widths"
@@ -958,13 +1062,17 @@ fn judge(sc: &Scratch, stmt: &Stmt, xml: &str, txns_compared: &mut u64) -> Outco
 // Enumeration
 
 fn alphabet(sides: &[Side], amts: &[usize], dates: &[Dates], shapes: &[usize]) -> Vec<EntrySpec> {
+    alphabet_of(&CHF, sides, amts, dates, shapes)
+}
+
+fn alphabet_of(unit: &'static Unit, sides: &[Side], amts: &[usize], dates: &[Dates], shapes: &[usize]) -> Vec<EntrySpec> {
     // simplest first: shape is the slowest digit, then dates, amount, side
     let mut v = vec![];
     for &shape in shapes {
         for &d in dates {
             for &amt in amts {
                 for &side in sides {
-                    v.push(EntrySpec { side, amt, dates: d, shape });
+                    v.push(EntrySpec { side, amt, dates: d, shape, unit });
                 }
             }
         }
@@ -981,6 +1089,9 @@ struct Family {
     n: usize,
     /// configurations the family is multiplied with (besides the 3 opening balances)
     cfgs: Vec<CfgSpec>,
+    /// ways of writing the figures the family is multiplied with
+    styles: Vec<Style>,
+    unit: &'static Unit,
     alpha: Vec<EntrySpec>,
 }
 
@@ -1010,7 +1121,7 @@ fn families(thorough: bool) -> Vec<Family> {
     // En: 2 x 3 x 1 x 4 = 24 (no non-zero charge; pairs without operator)
     let en = alphabet(&both, &all_amts, &[Dates::Same], &idx(&["k0", "k1-zero-chg", "k0-entry-empty-chrgs", "k2-entry-zero-chg"]));
     let orders = |operator: bool| vec![CfgSpec::plain(false, operator), CfgSpec::plain(true, operator)];
-    let fam = |name, n, operator: bool, alpha| Family { name, n, cfgs: orders(operator), alpha };
+    let fam = |name, n, operator: bool, alpha| Family { name, n, cfgs: orders(operator), styles: vec![Style::Hybrid], unit: &CHF, alpha };
     let mut f = vec![fam("F0", 0, true, vec![]), fam("F1", 1, true, full.clone()), fam("F1n", 1, false, full)];
     if !thorough {
         f.push(fam("F2", 2, true, e2));
@@ -1032,15 +1143,15 @@ fn families(thorough: bool) -> Vec<Family> {
     let mut counters = vec![];
     for w in 34..=48usize {
         for cjk in [false, true] {
-            for precision2 in [true, false] {
-                widths.push(CfgSpec { account: account_of_width(w, cjk), precision2, ..CfgSpec::plain(false, true) });
-                counters.push(CfgSpec { counter: Some(account_of_width(w, cjk).replacen("Assets", "Income", 1)), precision2, ..CfgSpec::plain(false, true) });
+            for precision in [Some(2), None] {
+                widths.push(CfgSpec { account: account_of_width(w, cjk), precision, ..CfgSpec::plain(false, true) });
+                counters.push(CfgSpec { counter: Some(account_of_width(w, cjk).replacen("Assets", "Income", 1)), precision, ..CfgSpec::plain(false, true) });
             }
         }
     }
-    f.push(Family { name: "Fw", n: 1, cfgs: widths, alpha: ec.clone() });
+    f.push(Family { name: "Fw", n: 1, cfgs: widths, styles: vec![Style::Hybrid], unit: &CHF, alpha: ec.clone() });
     // Fc: the same sweep for the counter account assigned by a rewrite rule
-    f.push(Family { name: "Fc", n: 1, cfgs: counters, alpha: ec.clone() });
+    f.push(Family { name: "Fc", n: 1, cfgs: counters, styles: vec![Style::Hybrid], unit: &CHF, alpha: ec.clone() });
     // Fl: nested configuration fragments: account x commodity set {outer, inner, both} + three levels, both row orders
     let mut layered = vec![];
     for new_to_old in [false, true] {
@@ -1051,7 +1162,23 @@ fn families(thorough: bool) -> Vec<Family> {
         }
         layered.push(CfgSpec { account: "Assets:Bank:Savings".to_string(), layout: Layout::Three, ..CfgSpec::plain(new_to_old, true) });
     }
-    f.push(Family { name: "Fl", n: 1, cfgs: layered, alpha: ec });
+    f.push(Family { name: "Fl", n: 1, cfgs: layered, styles: vec![Style::Hybrid], unit: &CHF, alpha: ec });
+    // --- value classes outside the small scope
+    // Fd: one entry, every (value date, booking date) pair of DATE_PAIRS: 2 x 3 x 20 x 3 = 360 letters, both row orders
+    let pair_dates: Vec<Dates> = (0..DATE_PAIRS.len()).map(Dates::Pair).collect();
+    f.push(fam("Fd", 1, true, alphabet(&both, &all_amts, &pair_dates, &idx(&["k0", "k1", "k2"]))));
+    // Fp-<ccy>: one entry in a unit of 0/1/2/3/4/8 decimals: 2 x 4 amounts x 4 shapes = 32 letters
+    //           x figures written {in full, minimal, zero-padded} x precision {decimals of the unit, none}
+    // Fq-<ccy>: two entries without details: (2 x 4)^2 = 64 sequences, written in full, precision of the unit
+    const FP: [&str; 6] = ["Fp-JPY", "Fp-XDC", "Fp-CHF", "Fp-KWD", "Fp-CLF", "Fp-BTC"];
+    const FQ: [&str; 6] = ["Fq-JPY", "Fq-XDC", "Fq-CHF", "Fq-KWD", "Fq-CLF", "Fq-BTC"];
+    for (u, unit) in UNITS_P.iter().enumerate() {
+        let cfg = |precision| CfgSpec { ccy: unit.ccy, precision, ..CfgSpec::plain(false, true) };
+        let ep = alphabet_of(unit, &both, &[0, 1, 2, 3], &[Dates::Same], &idx(&["k0", "k1-amtdtls", "k2", "k1-entry-incl"]));
+        f.push(Family { name: FP[u], n: 1, cfgs: vec![cfg(Some(unit.scale)), cfg(None)], styles: vec![Style::Full, Style::Minimal, Style::Padded], unit, alpha: ep });
+        let eq = alphabet_of(unit, &both, &[0, 1, 2, 3], &[Dates::Same], &idx(&["k0"]));
+        f.push(Family { name: FQ[u], n: 2, cfgs: vec![cfg(Some(unit.scale))], styles: vec![Style::Full], unit, alpha: eq });
+    }
     f
 }
 
@@ -1064,7 +1191,8 @@ fn run(ctx: &mut Ctx) {
         let a = fam.alpha.len() as u64;
         let seqs = a.pow(fam.n as u32);
         let ncfg = fam.cfgs.len() as u64;
-        let count = seqs * ncfg * 3;
+        let nsty = fam.styles.len() as u64;
+        let count = seqs * ncfg * nsty * 3;
         total += count;
         ctx.fact(&format!("statements_{}", fam.name), count);
         ctx.fact(&format!("alphabet_{}", fam.name), a);
@@ -1083,8 +1211,10 @@ fn run(ctx: &mut Ctx) {
             entries.reverse();
             let cfg = fam.cfgs[(r % ncfg) as usize].clone();
             r /= ncfg;
-            let opening = OPENINGS[(r % 3) as usize];
-            let stmt = Stmt { opening, cfg, entries };
+            let style = fam.styles[(r % nsty) as usize];
+            r /= nsty;
+            let opening = fam.unit.openings[(r % 3) as usize];
+            let stmt = Stmt { opening, unit: fam.unit, style, cfg, entries };
             let xml = render_xml(&stmt);
             let mut compared = 0u64;
             ctx.case(|| format!("{}\n--- config ---\n{}--- statement ({}) ---\n{}", stmt.summary(), stmt.cfg.yaml(), stmt.cfg.source(), xml), || judge(&sc, &stmt, &xml, &mut compared));
@@ -1094,7 +1224,9 @@ fn run(ctx: &mut Ctx) {
             ctx.count("statements_new_to_old", stmt.cfg.new_to_old as u64);
             ctx.count("statements_without_operator", !stmt.cfg.operator as u64);
             ctx.count("statements_layered_config", (stmt.cfg.layout != Layout::Single) as u64);
-            ctx.count("statements_account_width_sweep", (stmt.cfg.layout == Layout::Single && !stmt.cfg.is_plain()) as u64);
+            ctx.count("statements_date_pairs_outside_small_scope", stmt.entries.iter().any(|e| matches!(e.dates, Dates::Pair(_))) as u64);
+            ctx.count("statements_other_precision_or_notation", (stmt.style != Style::Hybrid) as u64);
+            ctx.count("statements_account_width_sweep", (stmt.cfg.account != ACCOUNT && stmt.cfg.layout == Layout::Single || stmt.cfg.counter.is_some()) as u64);
             ctx.count("batches_with_and_without_amtdtls", stmt.entries.iter().filter(|e| e.shape().heterogeneous()).count() as u64);
             ctx.count("entries_with_several_charge_records_on_one_transaction", stmt.entries.iter().filter(|e| e.shape().records_on_one_txn() >= 2).count() as u64);
             ctx.count("details_with_opposite_indicator", stmt.entries.iter().filter(|e| e.shape().opp.is_some()).count() as u64);
